@@ -17,12 +17,15 @@ VERDICT = "c15_verdict"
 EXPLAIN = "c15_explain"
 CASES_PER_FILE = 150
 CASE_TIMEOUT = 20
-TIERS = {"quick": {"n": 4000}, "thorough": {"n": 60000}}
+TIERS = {"quick": {"n": 4000}, "thorough": {"n": 60000, "exhaustive": True}}
 FUEL = 4000
 RULE = ("calls of backoff / backoff_iter(+ at most `take` next() calls) with binary64 start/stop/factor built around "
         "start*factor^k +-{0,1,2} ulp (subnormal, tiny, ordinary, huge, overflowing magnitudes; start 0/-0.0; stop<1), "
         "count in None/int/'repeat'/negative, jitter False/True/floats in and out of [-1,1] with seeded or "
-        "directed random draws, plus a malformed stream (NaN, negative start, stop 0, stop<start, factor<1); "
+        "directed random draws (every call to random.random() is recorded), 0.8% long sequences (100-1500 growth steps), "
+        "a complete small-scope grid in the thorough tier (all valid start<=stop among 0 and the 20 three-bit-significand "
+        "numbers in [0.25,8) x 6 factors x 4 count shapes, and all start<=stop among the first multiples of 2^-1074 x 6 factors; "
+        "a random 4% sample of n from that grid in the quick tier), plus a malformed stream (NaN, negative start, stop 0, stop<start, factor<1); "
         "non-trivial = a valid call yielding >= 3 values that both grows and reaches stop, or jitter on with >= 2 "
         "values, or a zero start with >= 2 values; distinct = distinct case hash")
 ASSUMPTIONS = ["CPython float is IEEE-754 binary64 with round-to-nearest-even, identical to Coq's PrimFloat (both use the hardware)",
@@ -247,10 +250,73 @@ def gen_invalid(rng, tier):
     return c
 
 
+def gen_long(rng, tier):
+    """long sequences: 100..1500 growth steps with a factor close to 1"""
+    factor = rng.choice([1.01, 1.003, 1.05, 1.0005, 1.02])
+    start = rng.choice([1.0, 0.1, 0.0, 3.0, 1e-3, math.ldexp(rng.uniform(1, 2), rng.randint(-20, 20))])
+    k = rng.randint(100, 1500)
+    cur = start if start else 1.0
+    for _ in range(k):
+        cur *= factor
+    stop = ulp_step(cur, rng.choice([0, 1, -1])) if rng.random() < 0.6 else cur * rng.uniform(1.0, factor)
+    api = rng.choice(["list", "iter"])
+    r = rng.random()
+    if r < 0.6:
+        count, take = rng.choice([None, "omit"]), 2400
+    elif r < 0.8 and api == "iter":
+        count, take = "repeat", k + rng.randint(0, 40)
+    else:
+        count = k + rng.choice([-5, 0, 1, 2, 30])
+        take = count + rng.choice([-1, 0, 3])
+    if api == "list":
+        take = 0
+    return _mk(rng, api, start, stop, count, factor, _jitter(rng, rng.random() < 0.3), take)
+
+
+def _grid_values():
+    return [0.0] + [(1 + m / 4.0) * 2.0 ** e for e in range(-2, 3) for m in range(4)]
+
+
+SWEEP_FACTORS = [1.0, 1.25, 1.5, 1.75, 2.0, 3.0]
+SUB_FACTORS = [1.0, 1.1, 1.25, 1.5, 2.0, 3.0]
+
+
+def sweep():
+    """Complete small-scope enumeration (thorough tier): every valid (start, stop) among 0 and the
+    20 numbers with a 3-bit significand in [0.25, 8), every factor of SWEEP_FACTORS, four count/api
+    shapes; and every (start, stop) among the first multiples of 2^-1074 (the stall regime)."""
+    fixed = {"jitter": ["omit", None], "draws": ["seed", 1], "style": ["float"] * 3, "call": "kw"}
+    vals = _grid_values()
+    shapes = [("list", None, 0), ("iter", "repeat", 12), ("list", 0, 0), ("list", 3, 0)]
+    for a in vals:
+        for b in vals[1:]:
+            if a > b:
+                continue
+            for f in SWEEP_FACTORS:
+                for api, count, take in shapes:
+                    yield dict(fixed, api=api, start=fhex(a), stop=fhex(b), count=count, factor=fhex(f), take=take)
+    for i in range(0, 9):
+        for jx in range(max(i, 1), 11):
+            for f in SUB_FACTORS:
+                for api, count, take in [("list", None, 0), ("iter", "repeat", 8)]:
+                    yield dict(fixed, api=api, start=fhex(i * TINY), stop=fhex(jx * TINY), count=count,
+                               factor=fhex(f), take=take)
+
+
 def generate(rng, tier, n):
+    if tier == "thorough":
+        for c in sweep():
+            yield c
+    else:
+        grid = list(sweep())
+        for c in rng.sample(grid, min(len(grid), max(1, n // 25))):
+            yield c
     for i in range(n):
-        if rng.random() < 0.2:
+        r = rng.random()
+        if r < 0.2:
             yield gen_invalid(rng, tier)
+        elif r < 0.208:
+            yield gen_long(rng, tier)
         else:
             yield gen_valid(rng, tier)
 
